@@ -165,3 +165,55 @@ pub fn hashvar(args: &Args) {
     out.finish();
     println!("{}", json!({"pairs": n, "by_kind": by_why, "samples": samples}));
 }
+
+/// C14: parsers on (malformed) text from TextGen's mutation model plus random strings; outcome per string.
+pub fn parse(args: &Args) {
+    quiet_panics();
+    let inputs: Vec<&str> = args.get("--in").map(|s| s.split(',').collect()).unwrap_or_default();
+    let profile = if cfg!(debug_assertions) { "debug" } else { "release" };
+    let mut out = Out::new(args.get("--out"));
+    let mut cases: Vec<(String, Vec<u32>)> = vec![];
+    for path in inputs {
+        for g in tlc_payloads(path, "GEN") {
+            cases.push((g["kind"].as_str().unwrap().to_string(), g["cps"].as_array().unwrap().iter().map(|c| c.as_u64().unwrap() as u32).collect()));
+        }
+    }
+    // random top-up
+    {
+        use rand::{Rng, SeedableRng};
+        let mut rng = rand_chacha::ChaCha8Rng::seed_from_u64(args.num("--seed", 1u64));
+        let alphabet: Vec<u32> = "rnbqkpRNBQKP12345678/ -wabcdefghxO=+#0".chars().map(|c| c as u32).chain([233u32, 9818, 1632, 8195]).collect();
+        for i in 0..args.num("--random", 2000usize) {
+            let n = rng.gen_range(0..90);
+            let cps: Vec<u32> = (0..n).map(|_| alphabet[rng.gen_range(0..alphabet.len())]).collect();
+            cases.push(((if i % 2 == 0 { "fen" } else { "san" }).to_string(), cps));
+        }
+    }
+    let (mut n, mut bad) = (0u64, 0u64);
+    let mut by_outcome: std::collections::BTreeMap<String, u64> = Default::default();
+    for chunk in cases.chunks(200) {
+        for kind in ["fen", "san"] {
+            let mut outcomes = vec![];
+            let mut texts = vec![];
+            for (k, cps) in chunk.iter().filter(|c| c.0 == kind) {
+                let text: String = cps.iter().filter_map(|c| char::from_u32(*c)).collect();
+                let t2 = text.clone();
+                let k2 = k.clone();
+                let t0 = std::time::Instant::now();
+                let r = guarded(move || if k2 == "fen" { try_from_notation::<State, Fen>(&t2).is_ok() } else { try_from_notation::<MoveQuery, San>(&t2).is_ok() });
+                let o = match r { Ok(true) => "ok", Ok(false) => "err", Err(_) => "panic" };
+                let o = if t0.elapsed().as_secs() >= 5 { "timeout" } else { o };
+                n += 1;
+                if o != "ok" && o != "err" { bad += 1; }
+                *by_outcome.entry(o.to_string()).or_insert(0) += 1;
+                outcomes.push(o);
+                texts.push(if o == "ok" || o == "err" { json!(0) } else { json!(cps) });
+            }
+            if !outcomes.is_empty() {
+                out.ev(json!({"ev": "Parse", "kind": kind, "profile": profile, "outcomes": outcomes, "texts": texts}));
+            }
+        }
+    }
+    out.finish();
+    println!("{}", json!({"strings": n, "not_ok_or_err": bad, "profile": profile, "by_outcome": by_outcome}));
+}
